@@ -77,6 +77,10 @@ PROPS = {
             {'engine': 'verus', 'name': 'start_next', 'tier': 'quick', 'exclude_obligations': ['start.progress_on_replica_end'], 'role': 'Start::next: Terminate / FlushAndRestart accounting, absorbed control elements, per-iteration reset'},
             {'engine': 'verus', 'name': 'reorder', 'tier': 'quick', 'role': 'Reorder::next: FlushAndRestart only when the buffer is empty; nothing carried over'},
             {'engine': 'verus', 'name': 'zip', 'tier': 'quick', 'role': 'Zip::next: stashes cleared at FlushAndRestart'},
+            {'engine': 'kani', 'name': 'transaction_window', 'tier': 'quick', 'role': 'TransactionWindowManager::process: nothing carried over at FlushAndRestart (KNOWN-FINDING F8)'},
+            {'engine': 'verus', 'name': 'fold', 'tier': 'quick', 'role': 'Fold::next: result before the end marker, reset at FlushAndRestart, Terminate sticky'},
+            {'engine': 'verus', 'name': 'event_time_v', 'tier': 'quick', 'exclude_obligations': ['process.early_element_not_dropped'], 'role': 'event-time windows: everything fires at FlushAndRestart, nothing carried over'},
+            {'engine': 'verus', 'name': 'count_window', 'tier': 'quick', 'role': 'count windows: slots cleared at FlushAndRestart/Terminate'},
         ],
         'explanation': 'Verus proof of the per-call contract of Start::next (any number of upstream replicas, any batches): FlushAndRestart is returned exactly when every '
                        'upstream FlushAndRestart of the iteration was consumed (and the per-iteration state restarts), Terminate exactly when every upstream Terminate was consumed, '
@@ -110,6 +114,7 @@ PROPS = {
             {'engine': 'verus', 'name': 'reorder', 'tier': 'quick', 'role': 'Reorder::next: the watermark follows every buffered element it covers and is forwarded unchanged'},
             {'engine': 'verus', 'name': 'zip', 'tier': 'quick', 'role': 'Zip::next: a pair carries the max of the two timestamps'},
             {'engine': 'verus', 'name': 'event_time_v', 'tier': 'quick', 'exclude_obligations': ['process.early_element_not_dropped'], 'role': 'EventTimeWindowManager::process: after Watermark(w) no window that can still fire has end <= w'},
+            {'engine': 'verus', 'name': 'fold', 'tier': 'quick', 'role': 'Fold::next: watermark held back until the result (stamped with the max timestamp) is out'},
         ],
         'explanation': 'per-operator watermark contracts proved on the real next() functions (Verus, unbounded) plus the frontier / event-time window contracts (Kani single-call harnesses, bounded state size).',
         'assumptions': ['W_in: the operator input respects the watermark contract', 'Fold/KeyedFold/FlatMap/AddTimestamp/WindowOperator wiring: see unit list'],
@@ -118,10 +123,21 @@ PROPS = {
         'level': 'proof',
         'units': [
             {'engine': 'verus', 'name': 'event_time_v', 'tier': 'quick', 'role': 'EventTimeWindowManager::{alloc_windows,process}: assignment to exactly the covering windows, firing rule, nothing carried over'},
+            {'engine': 'kani', 'name': 'transaction_window', 'tier': 'quick', 'exclude_obligations': ['transaction.iteration_end_carries_nothing_over'], 'role': 'TransactionWindowManager::process: commits exactly as the user logic dictates (loop-free harness: complete)'},
         ],
         'explanation': 'Verus proof (any number of open windows, any size/slide, |t| <= 2^60) on the extracted alloc_windows/process: a non-late element is added to exactly the windows whose '
                        'interval contains it (at least one when it is not before the first open window, at most ceil(size/slide)), a watermark fires exactly the windows it passed, oldest first, '
                        'FlushAndRestart fires everything and carries nothing over. The out-of-order-before-first-window case is the recorded known finding F7.',
         'assumptions': ['iterator chains desugared by the declared V-ITER templates', 'transaction windows: unit transaction_window (Kani) when registered'],
+    },
+    'C07': {
+        'level': 'proof',
+        'units': [
+            {'engine': 'verus', 'name': 'fold', 'tier': 'quick', 'role': 'Fold::next = sequential left fold of the iteration, one result iff non-empty, timestamp = max'},
+            {'engine': 'verus', 'name': 'two_phase', 'tier': 'quick', 'role': 'lemma: local-then-global fold over any partition equals the sequential fold (assoc/commutative laws as hypotheses)'},
+        ],
+        'explanation': 'Verus proof on the real Fold::next that each iteration yields exactly the sequential left fold of its items (user closure = assumed function), plus a pure lemma that the '
+                       'two-phase (local pre-aggregation, then global) form equals the sequential fold for every partition of the input, empty partitions included.',
+        'assumptions': ['KeyedFold::next (hash-map entry API, drain/map/extend) is NOT under contract: outside the Verus subset and intractable for CBMC here', 'keyed rich_map state not covered'],
     },
 }
